@@ -381,6 +381,7 @@ class ImportURI(scoping.ModelLoader):
 
     def __call__(self, obj, attr, obj_ref):
         from textx.model import ObjCrossRef, get_model
+        from textx.scoping.tools import get_parser
 
         assert type(obj_ref) is ObjCrossRef, type(obj_ref)
         # cls, obj_name = obj_ref.cls, obj_ref.obj_name
@@ -397,18 +398,25 @@ class ImportURI(scoping.ModelLoader):
         if ret:
             return ret
 
-        # 2) do we have loaded models?
-        for m in model_repository.local_models:
-            ret = self.scope_provider(m, attr, obj_ref)
-            if ret:
-                return ret
-
-        # 3) Use builtin models as a fallback if provided
-        if model._tx_metamodel.builtin_models:
-            for m in model._tx_metamodel.builtin_models:
+        try:
+            # 2) do we have loaded models?
+            for m in model_repository.local_models:
                 ret = self.scope_provider(m, attr, obj_ref)
                 if ret:
                     return ret
+
+            # 3) Use builtin models as a fallback if provided
+            if model._tx_metamodel.builtin_models:
+                for m in model._tx_metamodel.builtin_models:
+                    ret = self.scope_provider(m, attr, obj_ref)
+                    if ret:
+                        return ret
+        except TextXSemanticError as e:
+            # The provider was asked to search another model `m` and located
+            # the error there; the offending reference is in the model of `obj`.
+            e.line, e.col = get_parser(obj).pos_to_linecol(obj_ref.position)
+            e.filename = model._tx_filename
+            raise
         return None
 
 
